@@ -835,7 +835,8 @@ fn process_incoming_text_message<T: Read + Write>(
                                             &fc.all_msgs,
                                             stream,
                                             command,
-                                            params.split_once(' ').unwrap().1,
+                                            // a missing json body is reported as err (from the json parser)
+                                            params.split_once(' ').map_or("", |p| p.1),
                                         ) {
                                             websocket
                                                 .write_message(Message::Text(format!(
